@@ -323,7 +323,16 @@ def _adapt(fns, cand, want, types):
             if has_self and k == 0:
                 continue
             q = _plain_bind(params[k])
-            if q is None or _assigned(f["body"], q["hid"]):
+            tq = None
+            if q is None:
+                # a tuple pattern `(sh, sw): (usize, usize)` in parameter position
+                tp = params[k]
+                while tp is not None and tp.get("k") in ("ref", "deref"):
+                    tp = tp["p"]
+                if tp is not None and tp.get("k") == "tuple" and all(_plain_bind(z) is not None for z in tp["ps"]) \
+                        and not any(_assigned(f["body"], _plain_bind(z)["hid"]) for z in tp["ps"]):
+                    tq = [_plain_bind(z) for z in tp["ps"]]
+            if (q is None and tq is None) or (q is not None and _assigned(f["body"], q["hid"])):
                 continue
             fields = set()
             for (caller, x) in sites:
@@ -343,8 +352,11 @@ def _adapt(fns, cand, want, types):
             expr = {"k": "local", "name": "self", "hid": sb_own["hid"], "t": sb_own.get("t")}
             for fname in path:
                 expr = {"k": "field", "b": expr, "f": fname}
-            expr["t"] = q.get("t")
-            f["body"] = _subst(f["body"], {q["hid"]: expr})
+            if q is not None:
+                expr["t"] = q.get("t")
+                f["body"] = _subst(f["body"], {q["hid"]: expr})
+            else:
+                f["body"] = _subst(f["body"], {z["hid"]: {"k": "field", "b": copy.deepcopy(expr), "f": str(i_), "t": z.get("t")} for i_, z in enumerate(tq)})
             del params[k]
             del inputs[k]
             for (caller, x) in sites:
